@@ -1,4 +1,5 @@
 pub mod graph;
 pub mod names;
+pub mod project;
 pub mod rust;
 pub mod ty;
